@@ -81,7 +81,16 @@ struct PPort {
   int kind = LEAF;
   std::string meta;   // metadata block (without the implicit final NUL)
   int role = 0;       // leaves: 0 recording leaf, 1 toggle (library rToggleCb on the object's 'en'), 2 rSelf-style port
-  template <class A> void io(A &a) { a(name)(kind)(meta)(role); }
+  // format note: kind >= 100 marks records that carry 'role' (older case files do not)
+  template <class A> void io(A &a) {
+    a(name);
+    int k = kind + 100;
+    a(k);
+    bool ext = k >= 100;
+    kind = ext ? k - 100 : k;
+    a(meta);
+    if (ext) a(role); else role = 0;
+  }
   bool subtree() const { return kind != LEAF; }
 };
 struct PTable {
@@ -94,10 +103,16 @@ struct Tree {
   bool null_ptr[2] = {false, false};           // per level: is 'ptr' NULL
   unsigned null_manyp[2] = {0, 0};             // per level: bitmask of NULL manyp[i]
   unsigned dis[3] = {0, 0, 0};                 // per level: bitmask of objects whose 'en' toggle is false (bit = slot, see slot())
+  // format note: the first null_ptr flag is written +10 when the record carries dis[] (older case files do not)
   template <class A> void io(A &a) {
     a(tables);
-    for (int l = 0; l < 2; l++) { a(null_ptr[l]); a(null_manyp[l]); }
-    for (int l = 0; l < 3; l++) a(dis[l]);
+    int np0 = (null_ptr[0] ? 1 : 0) + 10;
+    a(np0);
+    bool ext = np0 >= 10;
+    null_ptr[0] = (ext ? np0 - 10 : np0) != 0;
+    a(null_manyp[0]);
+    a(null_ptr[1]); a(null_manyp[1]);
+    if (ext) for (int l = 0; l < 3; l++) a(dis[l]); else dis[0] = dis[1] = dis[2] = 0;
   }
   // slot of a child object within its level: one=0, ptr=1, many[i]=2+i, manyp[i]=6+i (root: 0)
   static int slot(int kind, int idx) { return kind == 1 ? 0 : kind == 2 ? 1 : kind == 3 ? 2 + (idx & 3) : 6 + (idx & 3); }
